@@ -72,7 +72,7 @@ package shimagent
 //@   requires s != nil
 //@   requires condsOK(s)
 //@   modifies mstate(pl(s.conds[msg % 40].L))
-//@   ensures result == nil
+//@   ensures result == nil && condsOK(s)
 //@   ensures [exactly-that-code-is-woken] msg < 40 ==> (calls(Cond.Broadcast) == old(calls(Cond.Broadcast)) + 1 &&
 //@     arg(Cond.Broadcast, old(calls(Cond.Broadcast)), 0) == s.conds[msg] && calls(Cond.Signal) == old(calls(Cond.Signal)) &&
 //@     mstate(pl(s.conds[msg].L)) == 0)
@@ -83,7 +83,7 @@ package shimagent
 //@   requires s != nil
 //@   requires condsOK(s)
 //@   modifies mstate(pl(s.conds[msg % 40].L))
-//@   ensures result == nil
+//@   ensures result == nil && condsOK(s)
 //@   ensures [waits-on-that-code-only] msg < 40 ==> (calls(Cond.Wait) == old(calls(Cond.Wait)) + 1 &&
 //@     arg(Cond.Wait, old(calls(Cond.Wait)), 0) == s.conds[msg] && mstate(pl(s.conds[msg].L)) == 0)
 //@   ensures [out-of-range-returns-at-once] msg >= 40 ==> (calls(Cond.Wait) == old(calls(Cond.Wait)) && calls(Locker.Lock) == old(calls(Locker.Lock)))
